@@ -414,6 +414,9 @@ def shrink_history(ck, c):
     return best
 
 
+FASTFILL_TEXT = "func fastFill(v []float64, val float64) { v[0] = val l := 1 for ; l < len(v); l *= 2 { copy(v[l:], v[:l]) } }"
+
+
 def is_labeldoc(c):
     return "/labeldoc-" in c.get("class", "")
 
@@ -427,7 +430,7 @@ def json_takes(t):
     return isinstance(d, dict) and all(isinstance(v, str) for v in d.values())
 
 
-def eval_ldcases(ck, name, cases, qps=()):
+def eval_ldcases(ck, name, cases, qps=(), ffs=()):
     """model/ReadLabelDoc.v on the rows encoding/json refuses (byte codes): no row panics, and JSON documents + documents the
     fallback decodes = series answered"""
     items = []
@@ -445,6 +448,11 @@ def eval_ldcases(ck, name, cases, qps=()):
     txt += ("Definition qpcases : list qpcase := [\n  " + ";\n  ".join(qitems) + "].\n"
             "Definition QM := Eval vm_compute in qp_mismatches qpcases.\nPrint QM.\n"
             "Definition QC := Eval vm_compute in qp_contract_violations qpcases.\nPrint QC.\n")
+    # round 8: the fastFill trials through the real FixPeriodPlanner against model/ReadFastFill.v
+    fitems = ["mkFF %d %d %d %s" % (k, f["a"], f["n"], coq_list([str(x - f["a"]) if 0 <= x - f["a"] < 250 else "255" for x in f["observed"]])) for k, f in enumerate(ffs)]
+    txt = txt.replace("From Qryn Require Import model.ReadLabelDoc.", "From Qryn Require Import model.ReadLabelDoc model.ReadFastFill.")
+    txt += ("Definition ffcases : list ffcase := [\n  " + ";\n  ".join(fitems) + "].\n"
+            "Definition FM := Eval vm_compute in ff_mismatches ffcases.\nPrint FM.\n")
     rc, out = ck.coq_eval(name, txt)
     if rc != 0:
         return None, out
@@ -456,9 +464,10 @@ def eval_ldcases(ck, name, cases, qps=()):
     ints = lambda t: [int(x) for x in re.findall(r"\d+", t)]
     mq = re.search(r"\bQM = (\[.*?\]|nil)\s*: list nat", flat)
     mc = re.search(r"\bQC = (\[.*?\]|nil)\s*: list nat", flat)
-    if not mq or not mc:
+    mf = re.search(r"\bFM = (\[.*?\]|nil)\s*: list nat", flat)
+    if not mq or not mc or not mf:
         return None, out
-    return {"P": ints(mp.group(1)), "M": ints(mm.group(1)), "QM": ints(mq.group(1)), "QC": ints(mc.group(1))}, out
+    return {"P": ints(mp.group(1)), "M": ints(mm.group(1)), "QM": ints(mq.group(1)), "QC": ints(mc.group(1)), "FM": ints(mf.group(1))}, out
 
 
 def shrink_rows(ck, c, still_bad):
@@ -776,7 +785,7 @@ def run(ck):
     tied = [c for c in judged if "labeldoc-mutant" not in c["class"] and c["obs"].get("items") is not None and c["obs"]["items"] >= 0]
     # round 8: the hypothesis of the termination theorem (stored_label_decoder_terminates) on the REAL strconv.QuotedPrefix: every
     # suffix of every row of this run's label-document requests; a sample of the answers goes to Coq next to the cases
-    qprep = run_harness(ck, ["--qpcontract", "--seed", ck.seed, "--n", ck.n(150, 3000)], "qpcontract") if ldoc else None
+    qprep = run_harness(ck, ["--qpcontract", "--seed", ck.seed, "--n", ck.n(100, 3000)], "qpcontract") if ldoc else None
     qp = qprep[0] if qprep else {"rows": 0, "calls": 0, "accepted": 0, "min_len": -1, "max_len": 0, "violations": [], "samples": []}
     if ldoc:
         ck.obligation("strconv.QuotedPrefix meets the contract of the termination theorem (err == nil -> q is a prefix of s, 2 <= len(q) <= len(s)) on all %d suffixes "
@@ -785,10 +794,46 @@ def run(ck):
         ck.extra["quoted_prefix_contract"] = {k: qp[k] for k in ("rows", "calls", "accepted", "min_len", "max_len")}
         ck.extra["quoted_prefix_contract"]["samples_in_coq"] = len(qp["samples"])
         ck.extra["quoted_prefix_contract"]["samples_accepted"] = sum(1 for s in qp["samples"] if s["real"])
-    ldres, ldout = eval_ldcases(ck, "C12_ldcases", tied, qp["samples"]) if tied else ({"P": [], "M": [], "QM": [], "QC": []}, "")
+    # the text model/ReadFastFill.v was transcribed from (quoted in its header): a change of fastFill must be followed by the model
+    try:
+        src = open(os.path.join(vcheck.REPO, "reader/logql/logql_transpiler_v2/planner_from_fix.go")).read()
+        i = src.index("func fastFill(")
+        body = " ".join(src[i:src.index("\n}\n", i) + 2].split())
+    except (OSError, ValueError):
+        body = ""
+    ck.obligation("text tie: fastFill in planner_from_fix.go is the function model/ReadFastFill.v transcribes (v[0] = val; l := 1; for ; l < len(v); l *= 2 { copy(v[l:], v[:l]) })",
+                  body == FASTFILL_TEXT, "found: %s" % body[:300])
+    # round 8, second item: fastFill through the real FixPeriodPlanner (in-process trials; a panic of the planner's unrecovered
+    # goroutine ends that process: the last progress line names the trial)
+    ffp = os.path.join(ck.work, "fastfill.jsonl")
+    if os.path.exists(ffp):
+        os.remove(ffp)
+    frc, fout = ck.go_run("readfuzz", ["--fastfill", "--n", ck.n(33, 65), "--out", ffp], timeout=300)
+    ffs = [json.loads(l) for l in open(ffp)] if frc == 0 and os.path.exists(ffp) else []
+    if frc != 0:
+        last = [l for l in fout.splitlines() if l.startswith("fastfill trial")]
+        pan = [l for l in fout.splitlines() if l.startswith("panic:") or "planner_from_fix.go" in l]
+        ck.obligation("fastFill trials through the real FixPeriodPlanner ran to the end", False, fout[-600:])
+        ck.violation({"property": "C12", "kind": "the goroutine of FixPeriodPlanner (no recover) ended the process: crash",
+                      "trial": last[-1] if last else "?", "panic": " || ".join(pan[:4])[:400],
+                      "replay": "readfuzz --fastfill (deterministic trials; the named one is the last line before the panic)"})
+    ldres, ldout = eval_ldcases(ck, "C12_ldcases", tied, qp["samples"], ffs) if (tied or ffs) else ({"P": [], "M": [], "QM": [], "QC": [], "FM": []}, "")
     if ldres is None:
         ck.obligation("label-document cases evaluated inside Coq", False, ldout[-1500:])
         return
+    if ffs:
+        ck.obligation("correspondence: ReadFastFill.ff_predicted (the slice through the model's fastFill: every cell holds the value) = cells of the answer holding the value, "
+                      "on %d trials through the real FixPeriodPlanner (slice lengths %d..%d, windows cut by the end of the series included)" % (
+                          len(ffs), min(f["n"] for f in ffs), max(f["n"] for f in ffs)),
+                      not ldres["FM"], "mismatching %s" % [(ffs[k]["id"], "slice [%d:%d]" % (ffs[k]["a"], ffs[k]["a"] + ffs[k]["n"]), ffs[k].get("err", ""), "observed %s" % ffs[k]["observed"][:12]) for k in ldres["FM"][:4]])
+        ck.extra["fastfill_trials"] = {"trials": len(ffs), "slice_lengths": sorted(set(f["n"] for f in ffs))[:3] + ["..", max(f["n"] for f in ffs)],
+                                       "cut_by_series_end": sum(1 for f in ffs if f["total"] != 200)}
+        if ldres["FM"]:
+            w = min((ffs[k] for k in ldres["FM"]), key=lambda f: f["n"])
+            ck.violation({"property": "C12", "kind": "fastFill through the real FixPeriodPlanner: " + (w.get("err") or "cells holding the value differ from the model's"),
+                          "trial": w, "model_predicted": "cells %d..%d" % (w["a"], w["a"] + w["n"] - 1), "others": len(ldres["FM"]) - 1,
+                          "replay": "readfuzz --fastfill (deterministic trials; this is trial id %d: one entry at %d.5 s, range %d s, step 1 s, %d cells from the epoch)" % (
+                              w["id"], w["a"], max(w["n"] - 1, 1), w["total"])})
     if tied:
         unhex = lambda k: bytes.fromhex(qp["samples"][k]["hex"]).decode("utf-8", "backslashreplace")
         ck.obligation("correspondence: ReadLabelDoc.qp_scan = len(strconv.QuotedPrefix(s)) (0 = refused) and qp_contract_ok, inside Coq, on %d texts cut from the documents "
